@@ -9,7 +9,7 @@ BUDGET = dict(quick=1600, thorough=50000)
 ANCHORS = ['numdifftools.nd_scipy:Jacobian.__call__', 'numdifftools.nd_scipy:Gradient.__call__']
 MIN_COUNTERS = dict(quick={'jacobian_entries_asserted': 5000, 'gradient_asserted': 300, 'bounds_points_asserted': 3000,
                            'forwarding_asserted': 1000, 'method:central': 200, 'method:forward': 200,
-                           'method:complex': 200, 'bounds_active_cases': 200, 'gradient_of_non_contiguous_matrix_x': 30},
+                           'method:complex': 200, 'bounds_active_cases': 200, 'gradient_of_non_contiguous_matrix_x': 40},
                     thorough={'jacobian_entries_asserted': 100000})
 RULE = ('n in 1..6, m in 1..5, affine f = A x + b and smooth nonlinear f = sin(Ax)*exp(Bx) + c (analytic Jacobian), methods '
         'central/forward/complex, relative step None or given, random boxes with x inside or exactly on the boundary, extra '
@@ -81,7 +81,7 @@ def run_case(case, ctx):
     if gradient and case['xshape'] == 'matrix' and n % 2 == 0:
         xin = x.reshape(2, n // 2)
         # the same logical matrix in another memory layout (the gradient is ordered like x.ravel(), logically)
-        layout = str(rng.choice(['C', 'F', 'strided']))
+        layout = str(rng.choice(['C', 'F', 'F', 'F', 'strided']))
         if layout == 'F':
             xin = np.asfortranarray(xin)
         elif layout == 'strided':
